@@ -120,13 +120,15 @@ func (d *wrappedSlidingWindowDetector) Check(seq uint64) (func() bool, bool) {
 
 	return func() bool {
 		latest := false
+		pos := diff
 		if diff < 0 {
 			// Update the head of the window.
 			d.mask.Lsh(uint(-diff))
 			d.latestSeq = seq
 			latest = true
+			pos = 0
 		}
-		d.mask.SetBit(uint(d.latestSeq - seq))
+		d.mask.SetBit(uint(pos))
 
 		return latest
 	}, true
